@@ -398,7 +398,7 @@ def consumers(prog, run, producer_order):
         # kron(I, u^T) and kron(v^T, I) act on the column-stacked vec; the mirrored forms on the row-stacked one
         expects = "F" if (which == "U" and side == "eye-first") or (which == "V" and side == "eye-second") else "C"
         used.append(expects)
-        ok = producer_order is not None and expects == producer_order
+        ok = None if producer_order is None else expects == producer_order
         run.ob("R-vec-order", fi.qual, f"kron form with a {'left' if which == 'U' else 'right'} singular vector ({side})", ok,
                f"`{astq.src(k, 70)}` acts on vec_{expects}(H); the factor is built from vec_{producer_order}(H)", witness=f"expects {expects}, producer {producer_order}", file=f, node=k)
     if not used:
@@ -441,7 +441,7 @@ def var_slot(prog, run):
     if not rets or not isinstance(rets[-1].value.elts[4], ast.Name):
         run.ob("R-var-slot", fi.qual, "returned variance table", None, "not found", file=f)
         return
-    vname = rets[-1].value.elts[4].id
+    vname = astq.alias_root(pf.node, rets[-1].value.elts[4].id)
     st = [n for n in ast.walk(pf.node) if isinstance(n, ast.Assign) and isinstance(n.targets[0], ast.Subscript) and isinstance(n.targets[0].value, ast.Name) and n.targets[0].value.id == vname]
     if not st:
         run.ob("R-var-slot", fi.qual, "variance store", False, "the frequency variance table is never written", "missing", file=f)
